@@ -149,9 +149,9 @@ theorem addTimer_spec (A : Algs) (l : WLoop) (now interval rep : UInt64) (owner 
     WInv (addTimer A l now interval rep owner).1 ∧ (addTimer A l now interval rep owner).2 = l.nextTok ∧
     (addTimer A l now interval rep owner).1.nextTok = l.nextTok + 1 ∧
     (addTimer A l now interval rep owner).1.heap.Perm
-      ({ tok := l.nextTok, expired := now + interval, interval := interval, rep := rep, owner := owner } :: l.heap) := by
+      ({ tok := l.nextTok, expired := now + interval, interval := interval, rep := rep, owner := owner, base := now.toNat } :: l.heap) := by
   obtain ⟨h1, h2⟩ := add_spec A l.heap
-    { tok := l.nextTok, expired := now + interval, interval := interval, rep := rep, owner := owner } h.heap
+    { tok := l.nextTok, expired := now + interval, interval := interval, rep := rep, owner := owner, base := now.toNat } h.heap
   refine ⟨?_, rfl, rfl, h2⟩
   refine winv_of_perm h1 h2 ?_ ?_ ?_ ?_
   · intro t ht; rcases List.mem_cons.1 ht with rfl | ht'
